@@ -42,6 +42,9 @@ let history (c : nat) (ops : op list) : string =
     let ord = List.filter_map (fun s -> match s.sid with
         | Some id -> Some (match Hashtbl.find_opt first (int_of_nat id) with Some c -> string_of_int c | None -> "?")
         | None -> None) (!t).tbl in
+    (* compared as a set: the slot layout is not fixed by the property *)
+    let key x = match int_of_string_opt x with Some k -> k | None -> max_int in
+    let ord = List.stable_sort (fun a b -> compare (key a) (key b)) ord in
     Buffer.add_string buf (String.concat "," ord);
     String.trim (Buffer.contents buf)
   with Overflow -> "PANIC" | Fuel -> "OUTOFFUEL"
